@@ -97,6 +97,13 @@ def _dom_frames(tier, seed):
             add("wcs.image2sky " + t, lambda a, b: w.image2sky(a, b + 100), ra, dec)
             add("wcs.sky2image " + t, lambda a, b: w.sky2image(a * 0 + 150.001, b * 0 + 2.001), ra, dec)
         add("coords.shiftlon " + tag, lambda a: co.shiftlon(a, 90.0), ra)
+        # unit vectors handed in by the caller, one component a rounding error outside [-1, 1] (as a normalisation can leave it)
+        vx = np.array([0.0, 1e-9, 0.6, 0.0, 0.0])
+        vy = np.array([0.0, 0.0, 0.8, 1e-9, 0.0])
+        vz = np.array([1.0 + 2.220446049250313e-16, -1.0 - 2.220446049250313e-16, 0.0, 1.0, -1.0])
+        for un in ("deg", "rad"):
+            add("coords.xyz2eq caller's vectors units=%s %s" % (un, tag), (lambda a, b, c, un=un: co.xyz2eq(a, b, c, units=un)),
+                vx.astype(ra.dtype) if ra.dtype.kind == "f" else vx, vy.copy(), vz.copy())
         add("coords.shiftlon wrap " + tag, lambda a: co.shiftlon(a, wrap=True), ra)
         add("coords.atbound " + tag, None, ra)      # documented in-place helper: not swept
     calls = [c for c in calls if c[1] is not None]
@@ -130,6 +137,8 @@ def _dom_frames(tier, seed):
         add("stat.interplin " + tag, lambda a, b: st.interplin(a * 2, a, b), x, x + 0.3)
         add("numpy_util.match " + tag, lambda a, b: nu.match(a, b), x, x[::-1].copy())
         add("numpy_util.unique " + tag, lambda a: nu.unique(a), x)
+        add("numpy_util.unique values=True " + tag, lambda a: nu.unique(a, values=True), x[::-1].copy() if tag in ("f8", "i8", "f4", ">f8") else x)
+        add("numpy_util.match presorted " + tag, lambda a, b: nu.match(a, b, presorted=True), np.sort(x), x[::-1].copy())
         add("numpy_util.rem_dup " + tag, lambda a, b: nu.rem_dup(a, b), x, wts)
         for conv in ("to_native", "to_big_endian", "to_little_endian", "byteswap"):
             add("numpy_util.%s inplace=False %s" % (conv, tag), (lambda a, conv=conv: getattr(nu, conv)(a, inplace=False)), x)
